@@ -119,6 +119,20 @@ def make(rng, index, n_entries=None, volumes=None, names=None, dates=None,
             e['tkind'] = t['kind']
             e['kind'] = 'link_sibling'
             entries.append(e)
+    # a trash directory below something whose NAME contains "info" (the home
+    # of an account called sysinfo): bystanders where a payload path derived
+    # by searching for that word - instead of taking the parent of info/ -
+    # would point
+    have = set(nd['p'] for nd in L.nodes)
+    for e in entries:
+        t = e['trash']
+        if 'info' in t:
+            head = t[:t.index('info')]
+            for by in (head + 'files/' + e['name'],
+                       os.path.join(head, 'files', e['name'])):
+                if by not in have and not any(h.startswith(by + '/') for h in have):
+                    L.add({'p': by, 't': 'f', 'c': 'bystander of %s\n' % e['name']})
+                    have.add(by)
     return L, trashes, entries
 
 
